@@ -71,9 +71,9 @@ func RSASignSHA1Digest(sha1Digest []byte, keyFile, passphrase string) ([]byte, e
 		if err != nil {
 			return nil, fmt.Errorf("parse PKCS#8 private key: %w", err)
 		}
-		privTmp, ok := privAny.(crypto.Signer)
+		privTmp, ok := privAny.(*rsa.PrivateKey)
 		if !ok {
-			return nil, fmt.Errorf("cannot sign with given private key")
+			return nil, errNoRSAKey
 		}
 		priv = privTmp
 	default:
